@@ -15,7 +15,19 @@ RULE = ("random regex ASTs (depth <=4; symbols of 1-3 characters, escaped operat
         "verified matcher, to_epsilon_nfa() structurally (state numbers included) with the Thompson model, to_cfg() "
         "through the CFG membership oracle, union/concatenate/kleene_star and the str() round trip through the "
         "equivalence oracle. Non-trivial: AST with >=2 operators of >=2 kinds.")
-THEOREMS = []
+LEVEL = "proof"
+THEOREMS = ["Pfl.Rx.nullable_iff",
+            "Pfl.Rx.deriv_iff",
+            "Pfl.Rx.matches_iff",
+            "Pfl.Rx.thompson_lang",
+            "Pfl.Rx.thompson_counter",
+            "Pfl.Rx.thompson_wf",
+            "Pfl.Rx.alt_denote",
+            "Pfl.Rx.cat_denote",
+            "Pfl.Rx.star_denote",
+            "Pfl.ENFA.langDiff_none_iff",
+            "Pfl.ENFA.langDiff_some",
+            "Pfl.CFG.cfgMem_iff"]
 
 
 def mutate(rng, text):
